@@ -80,7 +80,23 @@ def run(chk):
         cid = "s%d" % i
         cases.append({"id": cid, "files": files, "diff": diff, "args": args, "terminal": s["terminal"], "cwd": CWDS[i % len(CWDS)] or None})
         meta[cid] = (s, exp)
-    res2 = vlib.run_cli(cases, timeout=60)
+    tdir = vlib.subdir("c15-traces")
+    res2 = vlib.run_cli(cases, timeout=60, trace_dir=tdir)
+    # impl -> spec: the recorded walk / diff loops of a sample of the runs against Scope.tla
+    import runtrace
+    trs = {}
+    for c in cases[:60 if quick else 600]:
+        t = runtrace.scope_trace(runtrace.read_events(os.path.join(tdir, "cli-%s.ndjson" % c["id"])))
+        if t and res2[c["id"]]["outcome"] == "ok":
+            trs[c["id"]] = t
+    for tid, (ok, diag, states, rc_) in runtrace.validate_many("TraceScope", trs).items():
+        chk.traces += 1
+        chk.states += states
+        chk.transitions += states
+        if not ok:
+            if rc_ not in (10, 12, 13) and "TRACE" not in (diag or "") and "nvariant" not in (diag or ""):
+                raise vlib.ToolError("TraceScope failed on %s rc=%s\n%s" % (tid, rc_, diag))
+            chk.violation("TraceScope rejects the recorded scope loops: %s" % (diag or "")[:300], {"trace": trs[tid]})
     for c in cases:
         s, exp = meta[c["id"]]
         r = res2[c["id"]]
